@@ -127,7 +127,12 @@ func verifDrawClass(rng *rand.Rand, class string) verifDraw {
 		d.aux = essence
 		return d
 	case "str_mime_bad":
-		return str(pick("texthtml", "/html", "text/", "text html/plain", "(text)/html", "text/[html]"))
+		return str(pick("texthtml", "/html", "text/", "text html/plain", "(text)/html", "text/[html]", "a,b/c", ",text/html"))
+	case "str_mime_junk":
+		essence := pick("text/html", "text/plain", "image/png", "application/activity+json")
+		d := str(essence + pick(",text/html", ", text/markdown", " x", ")", ",", "\\", "\"", "<b>"))
+		d.aux = essence
+		return d
 	case "num_zero":
 		t := pick("0", "0.0", "-0", "0e5", "-0.0", "0E-3")
 		return verifDraw{text: t, want: "0"}
@@ -184,8 +189,12 @@ func TestVerifAccessors(t *testing.T) {
 			if err := json.NewDecoder(strings.NewReader(doc)).Decode(&decoded); err != nil {
 				continue
 			}
+			if cell.Acc == "GetMarkup" {
+				decoded["content"] = "<p>some <b>text</b></p>"
+			}
 			o := Object(decoded)
 			raw := decoded[key]
+			before := verifCanon(decoded)
 			var got, want string
 			var err error
 			panicked, what := verifkit.Try(func() {
@@ -230,6 +239,10 @@ func TestVerifAccessors(t *testing.T) {
 					} else {
 						want = "unparseable"
 					}
+				case "GetMarkup":
+					_, _, e := o.GetMarkup("content", key)
+					err = e
+					got, want = "rendered", "rendered"
 				case "GetMediaType":
 					v, e := o.GetMediaType(key)
 					err = e
@@ -250,8 +263,10 @@ func TestVerifAccessors(t *testing.T) {
 			if outcome != "value" {
 				got, want = "", ""
 			}
+			/* a second reader of the same document (they are shared through the cache) must find it as it was */
+			mutated := verifCanon(decoded) != before
 			ev := verifkit.M{"ev": "accessor", "acc": cell.Acc, "class": cell.Class, "json": verifkit.Clip(draw.text, 80), "outcome": outcome,
-				"got": got, "want": want, "panic": panicked}
+				"got": got, "want": want, "panic": panicked, "mutated": mutated}
 			if panicked {
 				ev["what"] = what
 			}
